@@ -160,7 +160,26 @@ impl Property for C08 {
             fifo: false,
             raw_byte: if !tight && rng.chance(1, 4) { Some(*rng.pick(&[0xffu8, 0xe9, 0xc3, 0x80])) } else { None },
         };
-        let spec = gen_tree(rng, &cfg);
+        let mut spec = gen_tree(rng, &cfg);
+        if tight && rng.chance(1, 3) {
+            // many long names in one directory below the top: a single directory needs several
+            // batches (-execdir dispatches a full batch from inside that directory)
+            let deep: Vec<String> = dirs_of(&spec).into_iter().filter(|d| d.contains('/') && d.len() < 600).collect();
+            if !deep.is_empty() {
+                let d = rng.pick(&deep).clone();
+                let n = rng.urange(30, 90);
+                for i in 0..n {
+                    let pad = rng.urange(150, 240);
+                    spec.nodes.push(tree::Node::File {
+                        path: format!("{d}/zz{i:03}_{}", "y".repeat(pad)),
+                        size: 0,
+                        token: 0,
+                        atime_ns: None,
+                        mtime_ns: None,
+                    });
+                }
+            }
+        }
         let mut starts: Vec<String> = roots
             .iter()
             .map(|r| match rng.weighted(&[6, 2, 2]) {
@@ -348,6 +367,14 @@ impl Property for C08 {
         let _ = oks;
         if spawns.len() > 1 {
             rep.probe("several_invocations");
+        }
+        if sc.execdir {
+            // two consecutive invocations from the same directory: the first was dispatched
+            // because the batch was full
+            let dirs: Vec<String> = spawns.iter().map(|(_, _, cwd, _)| cwd.as_ref().map(|c| norm_dir(&String::from_utf8_lossy(c))).unwrap_or_default()).collect();
+            if dirs.windows(2).any(|w| w[0] == w[1] && w[0].contains('/')) {
+                rep.probe("execdir_batch_overflow_inside_a_directory_below_the_top");
+            }
         }
         if sc.quit_name.is_some() {
             rep.probe("quit_in_expression");
